@@ -62,6 +62,10 @@ func (c *polCtx) draw(depth int, top bool) types.SpendPolicy {
 			return types.PolicyPublicKey(c.keys[0].PublicKey())
 		}
 		uc := types.UnlockConditions{Timelock: uint64(max(0, int64(c.height)+int64(t.Range(-2, 2)))), SignaturesRequired: uint64(t.Range(0, 3))}
+		if t.Chance(1, 6) {
+			// counts that only differ from small ones in their upper bytes
+			uc.SignaturesRequired = pick(t, uint64(256), 257, 258, 1<<32, 1<<32+1, 1<<63, 512+2)
+		}
 		for i := 0; i < t.Range(0, 4); i++ {
 			switch t.Weighted(6, 2, 1, 1) {
 			case 0:
